@@ -172,6 +172,33 @@ func runC15(c *Ctx) {
 		}
 	}
 	R.Floor("C15.R1", "element stores into slices inspected", nElem, 3)
+	// stores into objects a user callback returned: the handler may hand out the same object to every connection
+	// (a memoised prepared statement, a package-level table), the library only reads it
+	nCB := 0
+	for fn := range G {
+		if !c.P.InPkg(fn, "wire") {
+			continue
+		}
+		for _, b := range fn.Blocks {
+			for _, in := range b.Instrs {
+				st, ok := in.(*ssa.Store)
+				if !ok {
+					continue
+				}
+				switch st.Addr.(type) {
+				case *ssa.FieldAddr, *ssa.IndexAddr:
+				default:
+					continue
+				}
+				nCB++
+				if cb := c.callbackRoot(st.Addr, 8, map[ssa.Value]bool{}); cb != nil {
+					_, p := pathOf(st.Addr)
+					R.Fail("C15.R1", fkey(fn)+":store-into-callback-result:"+p, c.at(st), "connection code only reads what a user callback returned (the handler may return the same object to every connection)", sprintf("store to %s of an object returned by the callback invoked at %s: a statement / table the handler shares between connections is modified by whichever connection gets there first (data race; one connection's replies depend on another's traffic)", p, c.at(cb)))
+				}
+			}
+		}
+	}
+	R.Floor("C15.R1", "field / element stores checked against callback results", nCB, 20)
 	R.OK("C15.R1", "no-shared-stores", "-", "connection code stores only to per-connection objects (no store to a Server field, package variable or configuration-time captured variable)", sprintf("%d stores in %d functions inspected", nStores, len(G)))
 
 	// ---------- R1b: reference-typed Server fields and globals are only read in G
@@ -650,4 +677,105 @@ func rootDescr(v ssa.Value) string {
 var perConnectionOwner = map[string]bool{
 	"Session": true, "dataWriter": true, "CopyReader": true, "BinaryCopyReader": true,
 	"Reader": true, "Writer": true, "DefaultStatementCache": true, "DefaultPortalCache": true,
+}
+
+// callbackRoot: the object addressed by v was obtained from a call through a function value (a user callback: the
+// parse hook, a statement function, a session hook). Follows loads, field / element selection, tuples, merges,
+// locals and parameters (through the call sites of the function).
+func (c *Ctx) callbackRoot(v ssa.Value, depth int, seen map[ssa.Value]bool) ssa.CallInstruction {
+	if v == nil || depth <= 0 || seen[v] {
+		return nil
+	}
+	seen[v] = true
+	switch x := v.(type) {
+	case *ssa.FieldAddr:
+		// a field that holds a value (not a pointer) is part of the object itself
+		return c.callbackRoot(x.X, depth, seen)
+	case *ssa.IndexAddr:
+		return c.callbackRoot(x.X, depth, seen)
+	case *ssa.Field:
+		return c.callbackRoot(x.X, depth, seen)
+	case *ssa.Index:
+		return c.callbackRoot(x.X, depth, seen)
+	case *ssa.UnOp:
+		if x.Op != token.MUL {
+			return nil
+		}
+		if al, isAlloc := x.X.(*ssa.Alloc); isAlloc {
+			for _, r := range core.Referrers(al) {
+				if st, isSt := r.(*ssa.Store); isSt && st.Addr == ssa.Value(al) {
+					if cb := c.callbackRoot(st.Val, depth-1, seen); cb != nil {
+						return cb
+					}
+				}
+			}
+			return nil
+		}
+		return c.callbackRoot(x.X, depth-1, seen)
+	case *ssa.Extract:
+		return c.callbackRoot(x.Tuple, depth, seen)
+	case *ssa.Phi:
+		for _, e := range x.Edges {
+			if cb := c.callbackRoot(e, depth-1, seen); cb != nil {
+				return cb
+			}
+		}
+	case *ssa.ChangeType:
+		return c.callbackRoot(x.X, depth, seen)
+	case *ssa.Convert:
+		return c.callbackRoot(x.X, depth, seen)
+	case *ssa.TypeAssert:
+		return c.callbackRoot(x.X, depth, seen)
+	case *ssa.MakeInterface:
+		return c.callbackRoot(x.X, depth, seen)
+	case *ssa.Slice:
+		return c.callbackRoot(x.X, depth, seen)
+	case *ssa.Lookup:
+		return c.callbackRoot(x.X, depth, seen)
+	case *ssa.Next:
+		if rg, isR := x.Iter.(*ssa.Range); isR {
+			return c.callbackRoot(rg.X, depth, seen)
+		}
+	case *ssa.Call:
+		cc := x.Common()
+		if cc.IsInvoke() {
+			return nil
+		}
+		if _, isB := cc.Value.(*ssa.Builtin); isB {
+			return nil
+		}
+		callee := core.StaticCallee(x)
+		if callee == nil {
+			return x // call through a function value
+		}
+		if !c.P.InScope(callee) || callee.Blocks == nil {
+			return nil
+		}
+		for _, r := range returns(callee) {
+			for _, res := range r.Results {
+				if _, isPtrish := res.Type().Underlying().(*types.Basic); isPtrish {
+					continue
+				}
+				if cb := c.callbackRoot(res, depth-2, seen); cb != nil {
+					return cb
+				}
+			}
+		}
+	case *ssa.Parameter:
+		fn := x.Parent()
+		idx := -1
+		for i, q := range fn.Params {
+			if q == x {
+				idx = i
+			}
+		}
+		for _, s := range c.P.CallSitesOf(fn) {
+			if idx >= 0 && idx < len(s.Common().Args) {
+				if cb := c.callbackRoot(s.Common().Args[idx], depth-2, seen); cb != nil {
+					return cb
+				}
+			}
+		}
+	}
+	return nil
 }
